@@ -262,6 +262,7 @@ def compose_section(mods):
     flow_mod, img, grid_mod = mods
     rng = random.Random(4)
     flags = {}
+    batch_ok = [True]
     for D in (2, 3):
         for ac in (True, False):
             for N in (1, 2):
@@ -272,8 +273,15 @@ def compose_section(mods):
                 u0 = [e for e in u.a.reshape(-1)]
                 v0 = [e for e in v.a.reshape(-1)]
                 Fp = TorchProxy(st.functional, grid_sample=rec)
-                with patched(img, "F", Fp), patched(flow_mod, "F", Fp), patched(grid_mod, "torch", torch_proxy()):
-                    r = flow_mod.compose_flows(u, v, align_corners=ac)
+                try:
+                    with patched(img, "F", Fp), patched(flow_mod, "F", Fp), patched(grid_mod, "torch", torch_proxy()):
+                        r = flow_mod.compose_flows(u, v, align_corners=ac)
+                except ValueError as exc:
+                    # an in-place operation whose result does not fit the tensor written to (torch: RuntimeError)
+                    if N > 1 and "broadcast" in str(exc):
+                        batch_ok[0] = False
+                        continue
+                    raise
                 if any(not a.same(b) for a, b in zip(u0 + v0, list(u.a.reshape(-1)) + list(v.a.reshape(-1)))):
                     raise TraceError("compose_flows modifies its arguments")
                 if len(rec.calls) != 1:
@@ -291,7 +299,7 @@ def compose_section(mods):
                 want = st.Tensor(np.vectorize(lambda a, b: a + b, otypes=[object])(u.a, res.a))
                 if not same_values(r, want, envs):
                     raise TraceError("compose_flows is not u + sampled v")
-    return flags
+    return flags, batch_ok[0]
 
 
 def generate(loader):
@@ -302,7 +310,7 @@ def generate(loader):
     out = ["From DV Require Import Model.Sampler.", "Section Gen.", "Context {K : fld}.", ""]
     with simple_float_literals():
         pre, eflags = expv_section(mods)
-        cflags = compose_section(mods)
+        cflags, cbatch = compose_section(mods)
     out += pre
     out += emit_flags("gen_expv", eflags)
     out += emit_flags("gen_compose", cflags)
@@ -323,5 +331,7 @@ def generate(loader):
     out.append("\n".join(lines) + "\n")
     out.append("Definition gen_compose_flows {F : Type} (comp : bool -> bool -> padmode -> F -> F -> F) (ac : bool) (u v : F) : F :=\n"
                "  comp (gen_compose_gac ac) (gen_compose_sac ac) (gen_compose_pad ac) u v.\n")
+    out.append("(* does compose_flows accept a batch of N > 1 fields (an in-place add into a (1, ...) tensor raises)? *)\n"
+               f"Definition gen_compose_flows_batched : bool := {'true' if cbatch else 'false'}.\n")
     out.append("End Gen.\n")
     return "\n".join(out)
